@@ -53,3 +53,11 @@ Example C16_example :
   map oc_rc obs = [-1; c_HTP_STREAM_DATA; c_HTP_STREAM_DATA; c_HTP_STREAM_TUNNEL; c_HTP_STREAM_TUNNEL; c_HTP_STREAM_TUNNEL] /\
   map oc_ntx obs = [0; 1; 1; 1; 1; 1]%nat.
 Proof. vm_compute. repeat split. Qed.
+
+(* ---- the history-level statement is false of the code (listed finding http09-then-tunnel-error): junk after an Upgrade request is taken as an
+        HTTP/0.9-style request, which leaves in_tx NULL in state REQ_IGNORE_DATA_AFTER_HTTP_0_9; once the 101 answer has put both directions into
+        TUNNEL, htp_connp_req_data tests "no inbound transaction outside IDLE" (-> ERROR) before it tests for TUNNEL ---- *)
+Definition c16_w_ops : list cp_op := [OpOpen; OpReqData [71;69;84;32;47;117;112;32;72;84;84;80;47;49;46;49;13;10;72;111;115;116;58;32;97;13;10;85;112;103;114;97;100;101;58;32;119;101;98;115;111;99;107;101;116;13;10;67;111;110;110;101;99;116;105;111;110;58;32;85;112;103;114;97;100;101;13;10;13;10;65;22;1;65;10;10;128;10]%N; OpResData [72;84;84;80;47;49;46;49;32;49;48;49;32;88;13;10;13;10]%N; OpReqData [65]%N].
+Theorem C16_tunnel_full_refuted : ~ C16_tunnel_full.
+Proof. intros H. specialize (H (fun _ _ => CB_OK) (cp_make_cfg 1 (Z.to_nat 18000) 512 false false 0) c16_w_ops). vm_compute in H. discriminate. Qed.
+Print Assumptions C16_tunnel_full_refuted.
